@@ -126,6 +126,21 @@ func (x *Exec) callCommon(fr *frame, s *State, c *ssa.CallCommon, fnv Value, arg
 		bindings = fnv.Bind
 	}
 	if callee == nil {
+		// a call through a value of a named function type may have an assumed contract
+		if n, ok := c.Value.Type().(*types.Named); ok {
+			if ct := x.E.Contracts["functype "+n.Obj().Name()]; ct != nil {
+				ct.Used = true
+				var names []string
+				for i := 0; i < sig.Params().Len(); i++ {
+					nm := sig.Params().At(i).Name()
+					if nm == "" || nm == "_" {
+						nm = fmt.Sprintf("arg%d", i)
+					}
+					names = append(names, nm)
+				}
+				return x.applyContract(fr, s, ct, nil, n.Obj().Name(), args, names, sig, pos)
+			}
+		}
 		return x.unknownCall(fr, s, "dynamic call", nil, sig, pos)
 	}
 	return x.callFunction(fr, s, callee, args, bindings, pos)
